@@ -14,7 +14,9 @@ import (
 	"github.com/magisterquis/curlrevshell/verifharness/mon/hk"
 )
 
-var tokRe = regexp.MustCompile(`C(\d+)-OUT;`)
+// a token names its trial as well: a client of an earlier trial whose request
+// is served late (under load) may become a shell during a later trial
+var tokRe = regexp.MustCompile(`T(\d+)-C(\d+)-OUT;`)
 
 // httpRace: 2-4 real /io clients race over TLS against hsrv; whoever
 // receives the operator's probe line must be the client whose output is shown.
@@ -47,7 +49,7 @@ func httpRace(r *mon.Run) {
 					if err != nil {
 						return
 					}
-					io.Out.Send(fmt.Sprintf("C%d-OUT;", c))
+					io.Out.Send(fmt.Sprintf("T%d-C%d-OUT;", t, c))
 					clients[c] = io
 				}(c)
 			}
@@ -80,8 +82,14 @@ func httpRace(r *mon.Run) {
 				case lineOwner = <-got:
 				case <-time.After(4 * time.Second):
 				}
-				if ev, ok := s.Log.Wait(from, hk.Bound, func(e bk.Event) bool { return e.Kind == "op" && e.Plain && tokRe.MatchString(e.S) }); ok {
-					fmt.Sscan(tokRe.FindStringSubmatch(ev.S)[1], &shownOwner)
+				mine := fmt.Sprintf("T%d-C", t)
+				if ev, ok := s.Log.Wait(from, hk.Bound, func(e bk.Event) bool { return e.Kind == "op" && e.Plain && strings.Contains(e.S, mine) }); ok {
+					for _, m := range tokRe.FindAllStringSubmatch(ev.S, -1) {
+						if m[1] == fmt.Sprint(t) {
+							fmt.Sscan(m[2], &shownOwner)
+							break
+						}
+					}
 				}
 			}
 			for _, cl := range clients {
@@ -126,20 +134,18 @@ func httpRace(r *mon.Run) {
 			to, _ := s.Mark(fmt.Sprintf("MARK-b-%d", t))
 
 			// output displayed between two "gone" notices belongs to one shell
-			owners := map[int]bool{}
+			owners := map[string]bool{}
 			maxOwners := 0
 			for _, e := range s.OpLines(from, to) {
 				if e.Plain {
 					for _, m := range tokRe.FindAllStringSubmatch(e.S, -1) {
-						var c int
-						fmt.Sscan(m[1], &c)
-						owners[c] = true
+						owners[m[1]+"/"+m[2]] = true
 					}
 					if len(owners) > maxOwners {
 						maxOwners = len(owners)
 					}
 				} else if strings.Contains(e.S, "Shell is gone") {
-					owners = map[int]bool{}
+					owners = map[string]bool{}
 				}
 			}
 			r.Eval(1)
